@@ -455,6 +455,70 @@ pub fn cases(prop: &str, thorough: bool, seed: u64, c: &mut Cases) {
                 }
             }
         }
+        "C14" => {
+            for w in structured_words() {
+                c.emit("acc/structured", &format!("acc {w}"));
+            }
+            for _ in 0..(if thorough { 200_000 } else { 20_000 }) {
+                c.emit("acc/seeded", &format!("acc {}", rng.next() as u32));
+            }
+            c.emit("frombc/zero", "frombc 0");
+            for i in 0..64 {
+                c.emit("frombc/single-bit", &format!("frombc {}", 1u64 << i));
+                for j in 0..i {
+                    c.emit("frombc/two-bits", &format!("frombc {}", (1u64 << i) | (1u64 << j)));
+                }
+                c.emit("frombc/2^k-1", &format!("frombc {}", (1u64 << i).wrapping_sub(1)));
+                c.emit("frombc/2^k+1", &format!("frombc {}", (1u64 << i).wrapping_add(1)));
+            }
+            for i in 0..52 {
+                for j in 52..64 {
+                    c.emit("frombc/card|overflow", &format!("frombc {}", (1u64 << i) | (1u64 << j)));
+                }
+            }
+            c.emit("frombc/max", &format!("frombc {}", u64::MAX));
+            for _ in 0..(if thorough { 1_000_000 } else { 60_000 }) {
+                // mostly sparse values: 1..3 random bits, sometimes dense
+                let x = match rng.below(4) {
+                    0 => 1u64 << rng.below(64),
+                    1 => (1u64 << rng.below(64)) | (1u64 << rng.below(64)),
+                    2 => rng.next() & rng.next() & rng.next(),
+                    _ => rng.next(),
+                };
+                c.emit("frombc/seeded", &format!("frombc {x}"));
+            }
+        }
+        "C20" => {
+            let deck = layout_deck();
+            for w in deck {
+                for m in 0u32..8 {
+                    let x = w | (m << 29);
+                    c.emit("acc/marked-card", &format!("acc {x}"));
+                }
+            }
+            for _ in 0..(if thorough { 300_000 } else { 30_000 }) {
+                let w = (rng.next() as u32) & 0x1FFF_FFFF;
+                let m = rng.below(8) as u32;
+                c.emit("acc/marked-seeded", &format!("acc {}", w | (m << 29)));
+            }
+        }
+        "C18" => {
+            for i in 0u64..=60 {
+                c.emit("deck/small", &format!("deck {i}"));
+            }
+            for k in 0..64u32 {
+                let p = 1u64 << k;
+                for i in [p.wrapping_sub(1), p, p.wrapping_add(1)] {
+                    c.emit("deck/power-of-two", &format!("deck {i}"));
+                }
+            }
+            c.emit("deck/max", &format!("deck {}", u64::MAX));
+            let n = if thorough { 200_000 } else { 20_000 };
+            for _ in 0..n {
+                let i = if rng.below(2) == 0 { rng.below(120) } else { rng.next() };
+                c.emit("deck/seeded", &format!("deck {i}"));
+            }
+        }
         _ => panic!("no cases for {prop}"),
     }
 }
@@ -463,6 +527,9 @@ pub fn sweep(prop: &str, thorough: bool, seed: u64) -> Sweep {
     let _ = (thorough, seed);
     match prop {
         "C10" => sweep_c10(),
+        "C18" => sweep_c18(seed, thorough),
+        "C14" => sweep_c14(seed, thorough),
+        "C20" => sweep_c20(),
         _ => panic!("no sweep for {prop}"),
     }
 }
@@ -565,5 +632,270 @@ fn sweep_c10() -> Sweep {
     }
     s.sample(format!("filter({}) = {}", deck[0], CardNumber::filter(deck[0])));
     s.sample(format!("filter({}) = {}", deck[0] ^ 1, CardNumber::filter(deck[0] ^ 1)));
+    s
+}
+
+/// all k-subsets of 0..n as increasing index vectors, lexicographic
+pub fn index_combos(n: usize, k: usize) -> Vec<Vec<usize>> {
+    fn go(start: usize, n: usize, k: usize, cur: &mut Vec<usize>, out: &mut Vec<Vec<usize>>) {
+        if cur.len() == k {
+            out.push(cur.clone());
+            return;
+        }
+        for i in start..n {
+            cur.push(i);
+            go(i + 1, n, k, cur, out);
+            cur.pop();
+        }
+    }
+    let mut out = Vec::new();
+    go(0, n, k, &mut Vec::new(), &mut out);
+    out
+}
+
+/// C18, implementation against the description of each table.
+fn sweep_c18(seed: u64, thorough: bool) -> Sweep {
+    let mut s = Sweep { exhaustive: true, ..Default::default() };
+    s.rule = "every entry of the deck, the six preset tables and the three slot-index tables against an independently \
+              enumerated list of the combinations it should hold; Deck::get on every index class; non-trivial = table entry or in-range index"
+        .into();
+    let deck = layout_deck();
+    let arr = ckc_rs::deck::POKER_DECK.arr();
+    for i in 0..52 {
+        s.evaluations += 1;
+        s.nontrivial += 1;
+        if arr[i] != deck[i] {
+            s.fail("deck entry", &i.to_string(), &deck[i].to_string(), &arr[i].to_string());
+        }
+    }
+    if Deck::len() != 52 {
+        s.fail("deck length", "Deck::len()", "52", &Deck::len().to_string());
+    }
+    // Deck::get
+    let mut idx: Vec<usize> = (0..200).collect();
+    for k in 0..64 {
+        let p = 1usize << k;
+        idx.extend([p.wrapping_sub(1), p, p.wrapping_add(1)]);
+    }
+    idx.push(usize::MAX);
+    let mut rng = Rng::new(seed ^ 0x18);
+    for _ in 0..(if thorough { 1_000_000 } else { 100_000 }) {
+        idx.push(rng.next() as usize);
+    }
+    for i in idx {
+        s.evaluations += 1;
+        let want = if i < 52 { deck[i] } else { 0 };
+        match guarded(|| Deck::get(i)) {
+            Some(g) if g == want => {}
+            Some(g) => s.fail("Deck::get", &i.to_string(), &want.to_string(), &g.to_string()),
+            None => s.fail("Deck::get panics", &i.to_string(), &want.to_string(), "panic"),
+        }
+    }
+    s.sample(format!("Deck::get(51) = {}, Deck::get(52) = {}, Deck::get(usize::MAX) = {}", Deck::get(51), Deck::get(52), Deck::get(usize::MAX)));
+    // presets
+    let w = layout_word;
+    let suits = [3u32, 2, 1, 0];
+    let mut aa = Vec::new();
+    for c in index_combos(4, 2) {
+        aa.push([w(12, suits[c[0]]), w(12, suits[c[1]])]);
+    }
+    let big = |k: u32| -> (Vec<[u32; 2]>, Vec<[u32; 2]>) {
+        let mut su = Vec::new();
+        let mut off = Vec::new();
+        for a in suits {
+            su.push([w(12, a), w(k, a)]);
+            for b in suits {
+                if a != b {
+                    off.push([w(12, a), w(k, b)]);
+                }
+            }
+        }
+        (su, off)
+    };
+    let (aks, ako) = big(11);
+    let (aqs, aqo) = big(10);
+    let ak: Vec<[u32; 2]> = aks.iter().chain(ako.iter()).copied().collect();
+    let tabs: Vec<(&str, Vec<[u32; 2]>, Vec<[u32; 2]>)> = vec![
+        ("AA", Two::AA.iter().map(|t| t.to_arr()).collect(), aa),
+        ("AK", Two::AK.iter().map(|t| t.to_arr()).collect(), ak),
+        ("AKs", Two::AKs.iter().map(|t| t.to_arr()).collect(), aks),
+        ("AKo", Two::AKo.iter().map(|t| t.to_arr()).collect(), ako),
+        ("AQs", Two::AQs.iter().map(|t| t.to_arr()).collect(), aqs),
+        ("AQo", Two::AQo.iter().map(|t| t.to_arr()).collect(), aqo),
+    ];
+    for (name, got, want) in tabs {
+        s.evaluations += want.len() as u64;
+        s.nontrivial += want.len() as u64;
+        if got != want {
+            // name the first differing / missing / duplicated entry
+            let pos = got.iter().zip(want.iter()).position(|(a, b)| a != b).unwrap_or(got.len().min(want.len()));
+            s.fail(
+                &format!("preset table {name} differs from its description"),
+                &format!("{name}[{pos}]"),
+                &format!("{:?}", want.get(pos)),
+                &format!("{:?}", got.get(pos)),
+            );
+        }
+        s.sample(format!("{name}: {} entries, first {:?}", got.len(), got.first()));
+    }
+    let tables: Vec<(&str, Vec<Vec<usize>>, Vec<Vec<usize>>)> = vec![
+        ("OMAHA_PERMUTATIONS", Four::OMAHA_PERMUTATIONS.iter().map(|r| r.iter().map(|x| *x as usize).collect()).collect(), index_combos(4, 2)),
+        ("Six::FIVE_CARD_PERMUTATIONS", Six::FIVE_CARD_PERMUTATIONS.iter().map(|r| r.iter().map(|x| *x as usize).collect()).collect(), index_combos(6, 5)),
+        ("Seven::FIVE_CARD_PERMUTATIONS", Seven::FIVE_CARD_PERMUTATIONS.iter().map(|r| r.iter().map(|x| *x as usize).collect()).collect(), index_combos(7, 5)),
+    ];
+    for (name, got, want) in tables {
+        s.evaluations += want.len() as u64;
+        s.nontrivial += want.len() as u64;
+        if got != want {
+            let pos = got.iter().zip(want.iter()).position(|(a, b)| a != b).unwrap_or(got.len().min(want.len()));
+            s.fail(&format!("slot table {name}"), &format!("{name}[{pos}]"), &format!("{:?}", want.get(pos)), &format!("{:?}", got.get(pos)));
+        }
+    }
+    s
+}
+
+/// C14, implementation against "bit 51 - deck index, inverse on the 52, blank / empty elsewhere".
+fn sweep_c14(seed: u64, thorough: bool) -> Sweep {
+    let mut s = Sweep::default();
+    s.rule = "from_ckc over all 2^32 words and from_binary_card over 0, all single bits, all two-bit values, card|overflow mixes and \
+              seeded 64-bit values against the deck-order bit assignment; non-trivial = one of the 52 cards / card bits or within one bit of one"
+        .into();
+    let deck = layout_deck();
+    let mut sorted: Vec<(u32, u64)> = deck.iter().enumerate().map(|(i, w)| (*w, 1u64 << (51 - i))).collect();
+    sorted.sort_unstable();
+    let parts = threads() * 4;
+    let bad: Vec<(u32, u64)> = par_ranges(1 << 32, parts, |lo, hi| {
+        let mut v = Vec::new();
+        for w in lo..hi {
+            let w = w as u32;
+            let want = match sorted.binary_search_by_key(&w, |p| p.0) {
+                Ok(k) => sorted[k].1,
+                Err(_) => 0,
+            };
+            let got = <BinaryCard as BC64>::from_ckc(w);
+            if got != want && v.len() < 4 {
+                v.push((w, got));
+            }
+        }
+        v
+    })
+    .concat();
+    s.evaluations += 1 << 32;
+    s.count("from_ckc/all-2^32-words", 1 << 32);
+    s.nontrivial += 52 * 33;
+    for (w, got) in bad {
+        let want = sorted.iter().find(|p| p.0 == w).map(|p| p.1).unwrap_or(0);
+        s.fail("from_ckc", &w.to_string(), &want.to_string(), &got.to_string());
+    }
+    let want_bc = |x: u64| -> u32 {
+        if x.count_ones() == 1 && x.trailing_zeros() < 52 { deck[51 - x.trailing_zeros() as usize] } else { 0 }
+    };
+    let mut check = |s: &mut Sweep, x: u64, kind: &str| {
+        s.evaluations += 1;
+        s.count(kind, 1);
+        let got = <CKCNumber as PokerCard>::from_binary_card(x);
+        if got != want_bc(x) {
+            s.fail("from_binary_card", &x.to_string(), &want_bc(x).to_string(), &got.to_string());
+        }
+    };
+    check(&mut s, 0, "from_bc/zero");
+    for i in 0..64 {
+        check(&mut s, 1 << i, "from_bc/single-bit");
+        s.nontrivial += 1;
+        for j in 0..i {
+            check(&mut s, (1 << i) | (1 << j), "from_bc/two-bits");
+        }
+    }
+    for i in 0..52 {
+        let w = deck[51 - i];
+        let b = <BinaryCard as BC64>::from_ckc(w);
+        s.evaluations += 1;
+        if <CKCNumber as PokerCard>::from_binary_card(b) != w || b != 1 << i {
+            s.fail("round trip word -> bit -> word", &w.to_string(), &w.to_string(), &<CKCNumber as PokerCard>::from_binary_card(b).to_string());
+        }
+    }
+    let n: u64 = if thorough { 1_000_000_000 } else { 20_000_000 };
+    let bad: Vec<(u64, u32)> = par_ranges(n, parts, |lo, hi| {
+        let mut rng = Rng::new(seed ^ lo.wrapping_mul(0x9E37));
+        let mut v = Vec::new();
+        for k in lo..hi {
+            let x = match k % 4 {
+                0 => (1u64 << rng.below(64)) | (1u64 << rng.below(64)),
+                1 => rng.next() & rng.next() & rng.next(),
+                2 => (1u64 << rng.below(52)) | (rng.next() & rng.next() & rng.next() & rng.next()),
+                _ => rng.next(),
+            };
+            let want = if x.count_ones() == 1 && x.trailing_zeros() < 52 { deck[51 - x.trailing_zeros() as usize] } else { 0 };
+            let got = <CKCNumber as PokerCard>::from_binary_card(x);
+            if got != want && v.len() < 4 {
+                v.push((x, got));
+            }
+        }
+        v
+    })
+    .concat();
+    s.evaluations += n;
+    s.count("from_bc/seeded-64-bit", n);
+    for (x, got) in bad {
+        s.fail("from_binary_card", &x.to_string(), &want_bc(x).to_string(), &got.to_string());
+    }
+    s.sample(format!("from_ckc({}) = {}", deck[0], <BinaryCard as BC64>::from_ckc(deck[0])));
+    s.sample(format!("from_binary_card(1) = {}", <CKCNumber as PokerCard>::from_binary_card(1)));
+    s.sample(format!("from_binary_card(3) = {}", <CKCNumber as PokerCard>::from_binary_card(3)));
+    s.notes.push("the 2^64 domain of from_binary_card is sampled, not swept".into());
+    s
+}
+
+/// C20: 52 cards x 8 mark combinations x 52 unmarked cards.
+fn sweep_c20() -> Sweep {
+    let mut s = Sweep { exhaustive: true, ..Default::default() };
+    s.rule = "all 52 cards x 8 combinations of marks: fields, idempotence, strip; x all 52 x 8 second words for the order clauses; every case is non-trivial".into();
+    let deck = layout_deck();
+    let mark = |m: u32, w: u32| -> u32 {
+        let mut x = w;
+        if m & 1 != 0 { x = x.flag_as_pair(); }
+        if m & 2 != 0 { x = x.flag_as_trips(); }
+        if m & 4 != 0 { x = x.flag_as_quads(); }
+        x
+    };
+    for &w in &deck {
+        for m in 0u32..8 {
+            let x = mark(m, w);
+            s.evaluations += 1;
+            s.nontrivial += 1;
+            let same_fields = x.get_card_rank() == w.get_card_rank()
+                && x.get_card_suit() == w.get_card_suit()
+                && x.get_rank_prime() == w.get_rank_prime()
+                && x.get_rank_char() == w.get_rank_char()
+                && x.get_suit_char() == w.get_suit_char()
+                && x.get_suit_letter() == w.get_suit_letter();
+            if x != (w | (m << 29)) {
+                s.fail("marking changes bits other than 29..31", &format!("{w} marks {m}"), &(w | (m << 29)).to_string(), &x.to_string());
+            }
+            if !same_fields {
+                s.fail("a field reads differently on the marked word", &format!("{w} marks {m}"), "same rank/suit/prime/chars", &x.to_string());
+            }
+            if mark(m, x) != x {
+                s.fail("marking is not idempotent", &format!("{w} marks {m}"), &x.to_string(), &mark(m, x).to_string());
+            }
+            if x.strip_multiples_flags() != w {
+                s.fail("strip does not return the card", &format!("{w} marks {m}"), &w.to_string(), &x.strip_multiples_flags().to_string());
+            }
+            for &v in &deck {
+                for m2 in 0u32..8 {
+                    let y = mark(m2, v);
+                    s.evaluations += 1;
+                    let ok = (m == 0 || x > v)
+                        && (!(m & 4 != 0 && m2 & 4 == 0) || x > y)
+                        && (!(m & 2 != 0 && m & 4 == 0 && m2 < 2) || x > y);
+                    if !ok {
+                        s.fail("marks do not dominate numeric order", &format!("{w} marks {m} vs {v} marks {m2}"), "greater", &format!("{x} vs {y}"));
+                    }
+                }
+            }
+        }
+    }
+    s.sample(format!("mark(5, {}) = {}", deck[0], mark(5, deck[0])));
+    s.sample(format!("strip({}) = {}", mark(7, deck[51]), mark(7, deck[51]).strip_multiples_flags()));
     s
 }
